@@ -1,10 +1,21 @@
 package main
 
 // op parInterleave (C16): deterministic interleavings of the registry traffic of several structural mutations on ONE shared
-// Population, at the granularity of the InnovationsObserver / NodeIdGenerator calls (the micro-steps of Model/RegistryPar.lean).
+// Population, at the granularity of the InnovationsObserver / NodeIdGenerator calls (the registry operations of
+// Model/ParEpoch.lean: snapshot / nextNode / nextInn / store).
 // Thread i mutates its own genome; at a chosen observer call of thread i the whole thread i+1 runs (nested), i.e. another
 // goroutine gets all its counter draws / record lookups / stores in between two calls of thread i. No goroutines, no locks
 // held across calls - every such schedule is one the parallel executor can produce.
+//
+// CORRESPONDENCE under interference: the case records
+//   - the TRACE of registry operations in global order: [thread, kind, value] per observer call (kind 0 snapshot, 1 nextNode,
+//     2 nextInn, 3 store; value = number of records seen / the number returned) plus the stored record for kind 3 -
+//     one scheduler pick of the model's `pstep` per entry;
+//   - per thread the raw Int63 values it consumed from the global math/rand source, in its own order: the position of the
+//     global stream is located (as withSeed does, by a probe draw that is found in a mirror source) whenever control passes
+//     between threads - at hook entry before the nested thread starts and when it returns;
+//   - inputs (genome, mutator kind, trigger point per thread; options; registry before) and outputs (flag / error class and
+//     genome per thread; registry afterwards).
 
 import (
 	"math/rand"
@@ -21,54 +32,122 @@ type ilThread struct {
 	at     int // the observer call before which the next thread runs (-1: never)
 	ok     bool
 	err    string
+	nested int // the observer call at which the next thread really ran nested (-1: it ran afterwards / there is none)
+	stream []uint64
 }
 
-type ilObserver struct {
+type ilTraceEntry struct {
+	T   int     `json:"t"`
+	K   int     `json:"k"`
+	V   int64   `json:"v"`
+	Rec *JInnov `json:"rec,omitempty"`
+}
+
+type ilRun struct {
 	pop     *genetics.Population
 	opts    *neat.Options
 	threads []*ilThread
-	idx     int
-	calls   int
-	fired   bool
+	trace   []ilTraceEntry
+	mirror  *rand.Rand
+	owner   int
+	probes  int
+}
+
+// switchTo: control passes to thread `owner`. A probe draw from the global source is located in the mirror; the values in
+// front of it were consumed by the thread that ran until now. (The probe value itself belongs to nobody.)
+func (r *ilRun) switchTo(owner int) {
+	probe := rand.Int63()
+	r.probes++
+	cur := r.threads[r.owner]
+	for n := 0; ; n++ {
+		v := r.mirror.Int63()
+		if v == probe {
+			break
+		}
+		cur.stream = append(cur.stream, uint64(v))
+		if n > 50_000_000 {
+			panic("parInterleave: cannot locate the position of the global stream")
+		}
+	}
+	r.owner = owner
+}
+
+type ilObserver struct {
+	run   *ilRun
+	idx   int
+	calls int
+	fired bool
 }
 
 func (o *ilObserver) hook() {
-	t := o.threads[o.idx]
-	if !o.fired && t.at == o.calls && o.idx+1 < len(o.threads) {
+	r := o.run
+	t := r.threads[o.idx]
+	if !o.fired && t.at == o.calls && o.idx+1 < len(r.threads) {
 		o.fired = true
-		runIlThread(o.pop, o.opts, o.threads, o.idx+1)
+		t.nested = o.calls
+		r.switchTo(o.idx + 1)
+		r.runThread(o.idx + 1)
+		r.switchTo(o.idx)
 	}
 	o.calls++
 }
-func (o *ilObserver) StoreInnovation(in genetics.Innovation) { o.hook(); o.pop.StoreInnovation(in) }
-func (o *ilObserver) Innovations() []genetics.Innovation     { o.hook(); return o.pop.Innovations() }
-func (o *ilObserver) NextInnovationNumber() int64            { o.hook(); return o.pop.NextInnovationNumber() }
-func (o *ilObserver) NextNodeId() int                        { o.hook(); return o.pop.NextNodeId() }
 
-func runIlThread(pop *genetics.Population, opts *neat.Options, threads []*ilThread, i int) {
-	t := threads[i]
-	obs := &ilObserver{pop: pop, opts: opts, threads: threads, idx: i}
+func innovRec(in genetics.Innovation) *JInnov {
+	v := genetics.VerifInnovationFields(in)
+	return &JInnov{Typ: v.Type, InId: v.InNodeId, OutId: v.OutNodeId, Inn: v.InnovationNum, Inn2: v.InnovationNum2,
+		W: bits(v.NewWeight), TraitNum: v.NewTraitNum, NewNode: v.NewNodeId, OldInn: v.OldInnovNum, Rec: v.IsRecurrent}
+}
+
+func (o *ilObserver) Innovations() []genetics.Innovation {
+	o.hook()
+	recs := o.run.pop.Innovations()
+	o.run.trace = append(o.run.trace, ilTraceEntry{T: o.idx, K: 0, V: int64(len(recs))})
+	return recs
+}
+func (o *ilObserver) NextNodeId() int {
+	o.hook()
+	v := o.run.pop.NextNodeId()
+	o.run.trace = append(o.run.trace, ilTraceEntry{T: o.idx, K: 1, V: int64(v)})
+	return v
+}
+func (o *ilObserver) NextInnovationNumber() int64 {
+	o.hook()
+	v := o.run.pop.NextInnovationNumber()
+	o.run.trace = append(o.run.trace, ilTraceEntry{T: o.idx, K: 2, V: v})
+	return v
+}
+func (o *ilObserver) StoreInnovation(in genetics.Innovation) {
+	o.hook()
+	o.run.trace = append(o.run.trace, ilTraceEntry{T: o.idx, K: 3, V: 0, Rec: innovRec(in)})
+	o.run.pop.StoreInnovation(in)
+}
+
+func (r *ilRun) runThread(i int) {
+	t := r.threads[i]
+	obs := &ilObserver{run: r, idx: i}
 	defer func() {
-		if r := recover(); r != nil {
-			if e := errClass(nil, r); e != nil {
+		if rec := recover(); rec != nil {
+			if e := errClass(nil, rec); e != nil {
 				t.err = *e
 			}
 		}
 		// a thread whose trigger point was never reached still lets the following threads run (sequentially afterwards)
-		if !obs.fired && i+1 < len(threads) {
+		if !obs.fired && i+1 < len(r.threads) {
 			obs.fired = true
-			runIlThread(pop, opts, threads, i+1)
+			r.switchTo(i + 1)
+			r.runThread(i + 1)
+			r.switchTo(i)
 		}
 	}()
 	var err error
 	switch t.kind {
 	case 0:
-		t.ok, err = genetics.VerifMutateAddNode(t.genome, obs, obs, opts)
+		t.ok, err = genetics.VerifMutateAddNode(t.genome, obs, obs, r.opts)
 	case 1:
 		t.genome.Phenotype = nil
-		t.ok, err = genetics.VerifMutateAddLink(t.genome, obs, 1, opts)
+		t.ok, err = genetics.VerifMutateAddLink(t.genome, obs, 1, r.opts)
 	default:
-		t.ok, err = genetics.VerifMutateConnectSensors(t.genome, obs, opts)
+		t.ok, err = genetics.VerifMutateConnectSensors(t.genome, obs, r.opts)
 	}
 	if err != nil {
 		if e := errClass(err, nil); e != nil {
@@ -79,7 +158,7 @@ func runIlThread(pop *genetics.Population, opts *neat.Options, threads []*ilThre
 
 func opParInterleave(g *G) (interface{}, []uint64, int, interface{}) {
 	opts := popOpts(g)
-	opts.PopSize = 2 + g.intn(4)
+	opts.PopSize = 2 + g.intn(3) // 2..4 threads
 	opts.CompatThreshold = 1e6
 	opts.RecurOnlyProb = g.f64() * 0.3
 	start := handGenome(g, 0)
@@ -88,32 +167,43 @@ func opParInterleave(g *G) (interface{}, []uint64, int, interface{}) {
 		origin = startGenomeFiles[g.intn(len(startGenomeFiles))]
 		start = loadStartGenome(origin)
 	}
+	if len(start.ControlGenes) > 0 {
+		return nil, nil, 0, nil
+	}
 	rand.Seed(g.seed63())
 	pop, err := genetics.NewPopulation(start, opts)
 	if err != nil {
 		return nil, nil, 0, nil
 	}
-	// a few sequential structural mutations first, so that genomes differ and records exist
+	// a few sequential structural mutations first, so that genomes differ and records exist; on a twin (70%) the record
+	// exists while no genome carries the innovation yet: every thread that makes the same choice finds a MATCHING record
 	warm := g.intn(4)
 	for i := 0; i < warm; i++ {
-		o := pop.Organisms[g.intn(len(pop.Organisms))]
-		if g.chance(0.5) {
-			_, _ = genetics.VerifMutateAddNode(o.Genotype, pop, pop, opts)
-		} else {
-			o.Genotype.Phenotype = nil
-			_, _ = genetics.VerifMutateAddLink(o.Genotype, pop, 1, opts)
+		gn := pop.Organisms[g.intn(len(pop.Organisms))].Genotype
+		if g.chance(0.7) {
+			gn = cloneGenome(gn)
 		}
+		func() {
+			defer func() { _ = recover() }()
+			if g.chance(0.5) {
+				_, _ = genetics.VerifMutateAddNode(gn, pop, pop, opts)
+			} else {
+				gn.Phenotype = nil
+				_, _ = genetics.VerifMutateAddLink(gn, pop, 1, opts)
+			}
+		}()
 	}
-	if g.chance(0.5) {
+	regMode := "records"
+	if g.chance(0.4) {
 		genetics.VerifPopSetInnovations(pop, nil) // a new generation: records forgotten, counters kept
+		regMode = "cleared"
 	}
-	var before []*JGenome
-	for _, o := range pop.Organisms {
-		before = append(before, dumpGenome(o.Genotype))
+	if len(genetics.VerifPopInnovationsRaw(pop)) == 0 {
+		regMode = "empty"
 	}
-	regBefore := dumpReg(pop)
 	n := len(pop.Organisms)
 	threads := make([]*ilThread, n)
+	var before []*JGenome
 	for i, o := range pop.Organisms {
 		k := 0
 		switch r := g.intn(10); {
@@ -124,16 +214,58 @@ func opParInterleave(g *G) (interface{}, []uint64, int, interface{}) {
 		default:
 			k = 2
 		}
-		threads[i] = &ilThread{genome: o.Genotype, kind: k, at: g.intn(7) - 1}
+		if origin == "xordisconnectedstartgenes" && g.chance(0.4) {
+			k = 2 // the shipped genome with a disconnected sensor: connect-sensors really adds links
+		}
+		// add-node performs at most 5 registry calls (indices 0..4), add-link 3, connect-sensors up to 3 per output: EVERY call
+		// index occurs as trigger point; 10%: never, 10%: an index beyond the last call (the next thread then runs afterwards)
+		last := 4
+		switch k {
+		case 1:
+			last = 2
+		case 2:
+			last = 8
+		}
+		at := g.intn(last + 1)
+		switch c := g.intn(10); {
+		case c == 0:
+			at = -1
+		case c == 1:
+			at = last + 1 + g.intn(2)
+		}
+		threads[i] = &ilThread{genome: o.Genotype, kind: k, at: at, nested: -1}
+		before = append(before, dumpGenome(o.Genotype))
 	}
-	stream, consumed := withSeed(g.seed63(), func() { runIlThread(pop, opts, threads, 0) })
-	var after []*JGenome
-	var res []map[string]interface{}
-	for i, o := range pop.Organisms {
-		after = append(after, dumpGenome(o.Genotype))
-		res = append(res, map[string]interface{}{"kind": threads[i].kind, "at": threads[i].at, "ok": threads[i].ok, "err": threads[i].err})
+	regBefore := dumpReg(pop)
+	seed := g.seed63()
+	run := &ilRun{pop: pop, opts: opts, threads: threads, mirror: rand.New(rand.NewSource(seed))}
+	rand.Seed(seed)
+	run.runThread(0)
+	run.switchTo(0) // flush the last segment
+	total := 0
+	var slack []uint64
+	for i := 0; i < 8; i++ {
+		slack = append(slack, uint64(run.mirror.Int63()))
 	}
-	in := map[string]interface{}{"genomes": before, "reg": regBefore, "origin": origin}
-	out := map[string]interface{}{"genomes": after, "reg": dumpReg(pop), "threads": res}
-	return in, stream, consumed, out
+	var inThreads, outThreads []map[string]interface{}
+	for i, t := range threads {
+		consumed := len(t.stream)
+		total += consumed
+		// slack values so that a model that over-consumes is detected, not starved
+		inThreads = append(inThreads, map[string]interface{}{"g": before[i], "kind": t.kind, "at": t.at,
+			"rand": append(append([]uint64{}, t.stream...), slack...), "consumed": consumed})
+		var e *string
+		if t.err != "" {
+			s := t.err
+			e = &s
+		}
+		outThreads = append(outThreads, map[string]interface{}{"ok": t.ok, "err": e, "nested": t.nested, "g": dumpGenome(t.genome)})
+	}
+	trace := run.trace
+	if trace == nil {
+		trace = []ilTraceEntry{}
+	}
+	in := map[string]interface{}{"threads": inThreads, "reg": regBefore, "opts": dumpMutOpts(opts), "origin": origin, "regMode": regMode}
+	out := map[string]interface{}{"threads": outThreads, "reg": dumpReg(pop), "trace": trace}
+	return in, nil, total, out
 }
